@@ -11,15 +11,11 @@ def main():
     outvc, outkani = sys.argv[2], sys.argv[3]
     os.makedirs(outvc, exist_ok=True)
     per_mod = {}
-    kani = []
+    kani_mod = {}
     index = []
-    kani.append("// GENERATED by tools/gen_layouts.py from contracts/layouts.toml -- do not edit\n")
-    kani.append("#[cfg(kani)]\nmod verif_kani_acc {\n    #![allow(unused_imports, unused_mut)]\n")
     for st in lay['struct']:
         name, mod, size = st['name'], st['module'], st['size']
-        kani.append(f"    use crate::{mod}::{name};\n")
-    for st in lay['struct']:
-        name, mod, size = st['name'], st['module'], st['size']
+        kani = kani_mod.setdefault(mod, [])
         out = per_mod.setdefault(mod, [])
         out.append(f"#[verifier::reject_recursive_types(T)]\n#[verifier::external_type_specification]\npub struct Ex{name}<T>(crate::{mod}::{name}<T>);\n")
         for f in st['field']:
@@ -33,7 +29,7 @@ def main():
                     out.append(f"#[verifier::allow(undeclared_external_trait)]\npub assume_specification<T: AsRef<[u8]>> [ {name}::<T>::{f['get']} ] (s: &{name}<T>) -> (r: {ty})\n    ensures r == ({getx});\n")
                     h = f"acc_{name}_{f['get']}"
                     kani.append(f"    #[kani::proof]\n    #[kani::unwind({8*n+2})]\n    fn {h}() {{\n        let raw: [u8; {size}] = kani::any();\n        let h = {name}(raw);\n        assert!(h.{f['get']}() == ({kgetx}));\n        kani::cover!(true);\n    }}\n")
-                    index.append({"harness": h, "struct": name, "accessor": f['get'], "kind": "get"})
+                    index.append({"harness": h, "struct": name, "accessor": f['get'], "kind": "get", "qualified": f"{mod}::verif_kani_acc::{h}"})
                 if 'set' in f:
                     upd = "as_bytes(old(s).0)"
                     for i, b in enumerate(bs):
@@ -42,7 +38,7 @@ def main():
                     h = f"acc_{name}_{f['set']}"
                     exp = "".join(f"        exp[{b}] = (v >> {8*(n-1-i)}) as u8;\n" for i, b in enumerate(bs))
                     kani.append(f"    #[kani::proof]\n    #[kani::unwind({8*n+2})]\n    fn {h}() {{\n        let raw: [u8; {size}] = kani::any();\n        let v: {ty} = kani::any();\n        let mut h = {name}(raw);\n        h.{f['set']}(v);\n        let mut exp = raw;\n{exp}        assert!(h.0 == exp);\n        kani::cover!(true);\n    }}\n")
-                    index.append({"harness": h, "struct": name, "accessor": f['set'], "kind": "set"})
+                    index.append({"harness": h, "struct": name, "accessor": f['set'], "kind": "set", "qualified": f"{mod}::verif_kani_acc::{h}"})
                 continue
             b, sh, w = f['byte'], f['shift'], f['width']
             m = mask(w)
@@ -60,18 +56,22 @@ def main():
                 out.append(f"#[verifier::allow(undeclared_external_trait)]\npub assume_specification<T: AsRef<[u8]>> [ {name}::<T>::{f['get']} ] (s: &{name}<T>) -> (r: u8)\n    ensures r == {getx};\n")
                 h = f"acc_{name}_{f['get']}"
                 kani.append(f"    #[kani::proof]\n    #[kani::unwind(10)]\n    fn {h}() {{\n        let raw: [u8; {size}] = kani::any();\n        let h = {name}(raw);\n        assert!(h.{f['get']}() == {kgetx});\n        kani::cover!(true);\n    }}\n")
-                index.append({"harness": h, "struct": name, "accessor": f['get'], "kind": "get"})
+                index.append({"harness": h, "struct": name, "accessor": f['get'], "kind": "get", "qualified": f"{mod}::verif_kani_acc::{h}"})
             if 'set' in f:
                 out.append(f"#[verifier::allow(undeclared_external_trait)]\npub assume_specification<T: AsMut<[u8]>> [ {name}::<T>::{f['set']} ] (s: &mut {name}<T>, v: u8)\n    ensures as_bytes(final(s).0) == as_bytes(old(s).0).update({b}, {setx});\n")
                 h = f"acc_{name}_{f['set']}"
                 kani.append(f"    #[kani::proof]\n    #[kani::unwind(10)]\n    fn {h}() {{\n        let raw: [u8; {size}] = kani::any();\n        let v: u8 = kani::any();\n        let mut h = {name}(raw);\n        h.{f['set']}(v);\n        let mut exp = raw;\n        exp[{b}] = {ksetx};\n        assert!(h.0 == exp);\n        kani::cover!(true);\n    }}\n")
-                index.append({"harness": h, "struct": name, "accessor": f['set'], "kind": "set"})
-    kani.append("}\n")
+                index.append({"harness": h, "struct": name, "accessor": f['set'], "kind": "set", "qualified": f"{mod}::verif_kani_acc::{h}"})
     for mod, parts in per_mod.items():
         with open(os.path.join(outvc, f"{mod}.acc.vc"), 'w') as fh:
             fh.write("//# GENERATED by tools/gen_layouts.py from contracts/layouts.toml -- do not edit\n@top\n")
             fh.write("\n".join(parts))
-    open(outkani, 'w').write("".join(kani))
+    for mod, parts in kani_mod.items():
+        with open(outkani + "." + mod + ".rs", 'w') as fh:
+            fh.write("// GENERATED by tools/gen_layouts.py from contracts/layouts.toml -- do not edit\n")
+            fh.write("#[cfg(kani)]\nmod verif_kani_acc {\n    #![allow(unused_imports, unused_mut)]\n    use super::*;\n")
+            fh.write("".join(parts))
+            fh.write("}\n")
     json.dump(index, open(outkani + ".index.json", 'w'), indent=1)
 
 main()
